@@ -86,7 +86,7 @@ Section MLRecords.
   Definition lines_touched (lines : list (nat * nat)) (m : nat * nat) : nat :=
     length (filter (fun l => touches l m) lines).
 
-  (* NEW FINDING MultiLinePerMatchDropsEmptyMatchAtLineStart: an empty submatch touches no line when it
+  (* observation outside property C10 (not a finding) MultiLinePerMatchDropsEmptyMatchAtLineStart: an empty submatch touches no line when it
      sits at the very start of a line (or at the end of the block) *)
   Definition TouchesNoLine (m : nat * nat) : Prop := lines_touched block_lines m = 0.
 End MLRecords.
